@@ -1801,8 +1801,8 @@ theorem anteOK_spec {s : State} {t : Tx} {sim : Bool} (h : anteOK s t sim = true
     · exact ⟨_, lookup_mem hverif, hv⟩
     · split at hverif
       · rename_i hany
-        simp only [List.any_eq_true, beq_iff_eq] at hany
-        obtain ⟨k, hk, hk2⟩ := hany
+        simp only [List.any_eq_true, Bool.and_eq_true, beq_iff_eq] at hany
+        obtain ⟨k, hk, hk2, _⟩ := hany
         exact ⟨k, hk, hk2⟩
       · simp at hverif
 theorem ite_none_left_eq_some {α : Type} {c : Prop} [Decidable c] {x : Option α} {y : α} :
